@@ -59,7 +59,9 @@ template <class T> static void Run(vf::BS & bs, Ctx & cx)
    const bool wantTrace = vf::WantSample();
    while((bs.done() == false)&&(steps++ < 200))
    {
-      const uint8_t opb = bs.u8(); const uint8_t op = (opb >= 230) ? (uint8_t)(46+(opb-230)/3) : (uint8_t)(opb%46); const int v = bs.u8()%16;   /* (230..255 used to fold onto 0..25) */ const uint32 idx = bs.u8()%(uint32)(d.size()+2);
+      const uint8_t opb = bs.u8(); const uint8_t op = (opb >= 230) ? (uint8_t)(46+(opb-230)/3) : (uint8_t)(opb%46); const int v = bs.u8()%16;   /* (230..255 used to fold onto 0..25) */ const uint8_t ib = bs.u8(); uint32 idx = ib%(uint32)(d.size()+2);
+      // now and then the index is not just past the end but far out: what a failed search returns (-1), MUSCLE_NO_LIMIT, the sign boundary (only for the operations whose model is a plain "valid or not")
+      if (((ib/(uint32)(d.size()+2))%8 == 7)&&((op == 5)||(op == 6)||(op == 33)||(op == 40))) {static const uint32 WILD[] = {0xFFFFFFFFu, 0x80000000u, 0x7FFFFFFFu, 0xFFFFFFFEu}; idx = WILD[v%4]; vf::Count("wild_index_operations");}
       const int tag = nextTag++;
       const char * name = "?";
       const bool wasWrapped = (q.IsNormalized() == false);
